@@ -355,10 +355,8 @@ reg("C14",
       stubs=["parse_ct_signed_certificate_timestamp"], funcs=["parse_ct_signed_certificate_timestamp_list"], timeout=600),
     H("c14", "c14_sct_list_one_shape", bounds="list of exactly one 47-byte entry (shape concrete, contents and inner length fields symbolic)",
       funcs=["parse_ct_signed_certificate_timestamp_list"], timeout=600),
-    H("c14", "c14_sct_list_1", tier="thorough", bounds="list buffer <= 54 B symbolic length: 0 or 1 entries plus overrunning/cut entries", timeout=900, mem=12,
-      funcs=["parse_ct_signed_certificate_timestamp_list"]),
-    H("c14", "c14_sct_list_2", tier="thorough", bounds="list buffer <= 101 B symbolic length: up to 2 entries", timeout=3000, mem=20,
-      funcs=["parse_ct_signed_certificate_timestamp_list"]),
+    H("c14", "c14_sct_list_two_shape", tier="thorough", bounds="list of exactly two 47-byte entries (shape concrete, contents and inner length fields symbolic)",
+      funcs=["parse_ct_signed_certificate_timestamp_list"], timeout=2400, mem=20),
     )
 
 # ------------------------------------------------------------------------------------------------ C15
